@@ -601,6 +601,10 @@ func (f *fnState) instr(ins ssa.Instruction) {
 		f.sliceOp(i)
 	case *ssa.Convert:
 		f.convert(i)
+	case *ssa.MultiConvert:
+		// conversion to or from a type parameter: the result is some value of the target type
+		f.note("conversions involving a type parameter yield an arbitrary value of the target type (generic function bodies are executed abstractly)")
+		f.vals[i] = f.freshOf("tpconv", i.Type())
 	case *ssa.ChangeType:
 		x := f.val(i.X)
 		x.Typ = i.Type()
@@ -811,6 +815,13 @@ func (f *fnState) binop(op token.Token, x, y SV, rt types.Type) SV {
 	case token.SHL, token.SHR:
 		if _, s, ok := bitsOf(y.Typ); ok && s {
 			f.oblige("SAFE:shift", "", f.site(), fmt.Sprintf("(>= %s 0)", y.T))
+		} else if s, ok := typeParamInts(y.Typ); ok && s {
+			// a shift count of a type parameter constrained to signed integers: negative counts panic
+			f.oblige("SAFE:shift", "", f.site(), fmt.Sprintf("(>= %s 0)", y.T))
+		}
+		if _, ok := typeParamInts(rt); ok {
+			f.note("arithmetic on values of an integer type parameter is modelled without a width (generic function bodies are executed abstractly)")
+			return f.freshOf("tpshift", rt)
 		}
 		bits, _, _ := bitsOf(rt)
 		if k, ok := constInt(y.T); ok && k >= 0 && k < 128 {
